@@ -71,6 +71,13 @@ def _close(a, b, scale):
     return a.shape == b.shape and bool(np.all(np.abs(a - b) <= 1e-9 * (1.0 + scale)))
 
 
+def _close_rel(a, b, scale):
+    """for results that are LINEAR in an input of arbitrary magnitude (`scale` = sum of its absolute values): no absolute floor,
+    a result of order 1e-18 for a matrix of order 1e-18 is as much a result as one of order one"""
+    a, b = np.asarray(a), np.asarray(b)
+    return a.shape == b.shape and bool(np.all(np.abs(a - b) <= 1e-9 * scale + 1e-300))
+
+
 # ----------------------------------------------------------------------------------------------- generators
 
 def _baselines(rng, kmax=6):
@@ -139,7 +146,8 @@ def _signed(rng, shape):
     rows / columns, single-entry and all-negative rows -- what an emptiness test on a row SUM gets wrong)"""
     if rng.random() < 0.4:
         return _structured(rng, shape)
-    return gens.reals(rng, shape, -5.0, 5.0, special=False) * (np.array(
+    f = 1.0 if rng.random() < 0.75 else float(rng.choice([2.0 ** -60, 2.0 ** -90, 2.0 ** 40]))     # linear operator: any magnitude
+    return f * gens.reals(rng, shape, -5.0, 5.0, special=False) * (np.array(
         [[rng.random() > 0.15 for _ in range(shape[1])] for _ in range(shape[0])], dtype=float))
 
 
@@ -306,7 +314,7 @@ def dft_class_mapping_matrix(mask, pixel_scales, origin, uv, image, matrix, vis)
     for preload in (True, False):
         aa, mk, t = _setup(mask, pixel_scales, origin, uv, preload)
         got = np.asarray(t.transform_mapping_matrix(mapping_matrix=matrix.copy()))
-        if not _close(got, want, float(np.abs(matrix).sum())):
+        if not _close_rel(got, want, float(np.abs(matrix).sum())):
             return "transform_mapping_matrix (preload=%s) != operator applied per column; max abs error %.3g" % (
                 preload, float(np.abs(got - want).max()))
     return None
@@ -328,6 +336,22 @@ def dft_class_image_from(mask, pixel_scales, origin, uv, image, matrix, vis):
         out = t.image_from(visibilities=aa.Visibilities(visibilities=v.copy()))
         if not _close(np.asarray(out.native), want_native, scale):
             return "image_from (preload=%s) != Re(A^H v) on the mask: %r vs %r" % (preload, np.asarray(out.native), want_native)
+        # "visibilities": also those that came out of arithmetic, slicing or item assignment on other Visibilities (data - model)
+        other = aa.Visibilities(visibilities=(0.5 * v + (1.0 - 2.0j)).copy())
+        derived = [("2 * (w - c)", (other - (1.0 - 2.0j)) * 2.0)]
+        ed = aa.Visibilities(visibilities=(v + 1.0).copy())
+        for k in range(len(v)):
+            ed[k] = v[k]
+        derived.append(("item-assigned", ed))
+        if len(v) >= 1:
+            longer = aa.Visibilities(visibilities=np.concatenate([v, v[:1] + 3.0]))
+            derived.append(("sliced", longer[:len(v)]))
+        for label, vis_obj in derived:
+            if not _close(np.asarray(vis_obj), v, scale):
+                continue                                          # (the derivation itself is not this check's business)
+            o2 = t.image_from(visibilities=vis_obj)
+            if not _close(np.asarray(o2.slim), want_slim, scale):
+                return "image_from (preload=%s) of %s Visibilities equal to v != Re(A^H v): %r vs %r" % (preload, label, np.asarray(o2.slim), want_slim)
         if not _close(np.asarray(out.slim), want_slim, scale):
             return "image_from(...).slim != Re(A^H v)"
         fwd = np.asarray(t.visibilities_from(image=aa.Array2D(values=image.copy(), mask=mk)))
@@ -492,7 +516,7 @@ def dft_class_one_transformer_many_inputs(mask, pixel_scales, origin, uv, image,
         aa, mk, t = _setup(mask, pixel_scales, origin, uv, preload)
         for k, M in enumerate(mats):
             got = np.asarray(t.transform_mapping_matrix(mapping_matrix=M.copy()))
-            if not _close(got, A @ M, float(np.abs(M).sum())):
+            if not _close_rel(got, A @ M, float(np.abs(M).sum())):
                 return "call %d of transform_mapping_matrix on one transformer (preload=%s) != operator applied to THIS matrix; max abs error %.3g" % (
                     k + 1, preload, float(np.abs(got - A @ M).max()))
         W_ = matrix.copy()                      # one array object, refilled in place between two calls
@@ -500,7 +524,7 @@ def dft_class_one_transformer_many_inputs(mask, pixel_scales, origin, uv, image,
         W_ *= -0.5
         W_[0, 0] += 1.0
         got = np.asarray(t.transform_mapping_matrix(mapping_matrix=W_))
-        if not _close(got, A @ W_, float(np.abs(W_).sum())):
+        if not _close_rel(got, A @ W_, float(np.abs(W_).sum())):
             return "transform_mapping_matrix (preload=%s) called again with the same array object after it was refilled in place transforms its OLD content" % preload
         for k, I in enumerate(ims):
             got = np.asarray(t.visibilities_from(image=aa.Array2D(values=I.copy(), mask=mk)))
